@@ -82,6 +82,9 @@ pub struct Config {
     /// the re-creation of a failed service stays pending until the simulator opens a gate
     #[serde(default)]
     pub gated_restart: bool,
+    /// order in which workers / max_concurrent_connections / shutdown_timeout are set (0..6)
+    #[serde(default)]
+    pub builder_order: u8,
 }
 
 fn yes() -> bool {
@@ -872,10 +875,16 @@ async fn sim_main(sh: Rc<Shared>) -> Option<Violation> {
     sh.factory_pending_polls.set(0);
 
     // listeners are created by the simulator and handed to the real builder
-    let mut builder = Server::build()
-        .workers(cfg.workers)
-        .max_concurrent_connections(cfg.limit)
-        .shutdown_timeout(cfg.shutdown_timeout_s);
+    // the three settings are independent of each other: any call order gives the same server
+    let mut builder = Server::build();
+    let order: [u8; 3] = [[0, 1, 2], [0, 2, 1], [1, 0, 2], [1, 2, 0], [2, 0, 1], [2, 1, 0]][cfg.builder_order as usize % 6];
+    for step in order {
+        builder = match step {
+            0 => builder.workers(cfg.workers),
+            1 => builder.max_concurrent_connections(cfg.limit),
+            _ => builder.shutdown_timeout(cfg.shutdown_timeout_s),
+        };
+    }
     if !cfg.signals {
         builder = builder.disable_signals();
     }
